@@ -1760,6 +1760,16 @@ def compare(chk, cases, outs):
             r = c["impl"]
             exp = "OK " + schema_to_show(r[1]) if r[0] == "OK" else "ERR " + r[1]
             parts_t = m["T"].split("#")
+            if parts_t[0] == "ERR EUnmodelled":
+                # non-ASCII text before the first ':' : str.find counts code points, the model's strings are UTF-8 bytes; the
+                # model gives no answer (Model_scsv.ascii_prefix) and neither does the generated parser (py_find)
+                count("terse_result", "outside the model (non-ASCII before the first colon)")
+                chk.note_case(("terse", c["text"]), nontrivial=False, sample=None)
+                if GEN_ENTRY and (len(parts_t) < 2 or parts_t[1] != "T:ERR EUnmodelled"):
+                    bad.append((c, f"parse_scsv_schema({c['text']!r}): model outside its domain, generated parser {parts_t[1:]}"))
+                if any(ord(ch) > 127 for ch in c["text"].split(":")[0]) is False:
+                    bad.append((c, f"parse_scsv_schema({c['text']!r}): the model answers EUnmodelled on a text that is ASCII up to the first colon"))
+                continue
             count("terse_result", exp[:3])
             chk.note_case(("terse", c["text"]), nontrivial=True, sample={"terse": c["text"], "impl": exp[:80], "model": parts_t[0][:80]})
             if parts_t[0] != exp:
